@@ -70,7 +70,7 @@ theorem C04_cancel_disarms (w w' : World) (k : Nat) (rest : List K) (isNil : Boo
   · cases hs
   · simp only [h1, Bool.false_eq_true, if_false] at hs
     cases hs
-    refine ⟨{ o with evR := false, cancelled := true, cancelledRep := true, tstate := .ready }, ?_, rfl, rfl, rfl⟩
+    refine ⟨{ o with evR := false, cancelled := true, cancels := o.cancels + 1, tstate := .ready }, ?_, rfl, rfl, rfl⟩
     rw [← hid]
     exact getObj_setObj_self _ o _ (by rw [hid]; exact hg) rfl
 
@@ -98,48 +98,52 @@ theorem C04_fire_disarms (w w' : World) (op : Nat) (rest : List K) (info : OpInf
   simp only [hp, Bool.false_eq_true, if_false, if_true] at h
   split at h
   · cases h
-    refine ⟨{ o with evR := false, tstate := .ready, cancelledRep := (o.cancelledRep && info.kind != OpKind.timerRep) }, ?_, rfl, rfl⟩
+    refine ⟨{ o with evR := false, tstate := .ready }, ?_, rfl, rfl⟩
     rw [← hid]
     exact getObj_setObj_self _ o _ (show getObj { w with pending := w.pending - 1 } o.id = some o by rw [hid]; exact hg) rfl
   · cases h
 
-/-- Only the wrapper of a *repeating* schedule notes the Cancels so far when it starts: a one-shot schedule firing
-(e.g. in a poll nested inside the repeating callback) leaves the mark of an earlier Cancel in place, so the repeating
-schedule still stops (a divergence of an earlier version of this model from `timer.go`, found while deriving the ledger). -/
-theorem C04_oneshot_fire_keeps_cancel_mark (w w' : World) (op : Nat) (rest : List K) (info : OpInfo) (o : Obj)
-    (hop : getOp w op = some info) (ht : info.kind = .timerOnce) (hg : getObj w info.obj = some o)
+/-- A firing notes the number of successful Cancels so far in the continuation of the callback (`cancelsBefore :=
+t.cancels` in the wrapper of a repeating schedule) and leaves the counter itself alone — also when the firing is that of
+another schedule of the same timer in a poll nested inside the repeating callback, so a Cancel during the outer callback
+is not forgotten (an earlier version of this model, with a flag instead of the counter, diverged from `timer.go` there:
+found while deriving the ledger, confirmed on the real loop, kept as corpus scripts). -/
+theorem C04_fire_keeps_cancel_count (w w' : World) (op : Nat) (rest : List K) (info : OpInfo) (o : Obj)
+    (hop : getOp w op = some info) (ht : info.kind.isTimer = true) (hg : getObj w info.obj = some o)
     (h : pollDispatch w op rest = some w') :
-    ∃ o', getObj w' info.obj = some o' ∧ o'.cancelledRep = o.cancelledRep := by
+    (∃ o', getObj w' info.obj = some o' ∧ o'.cancels = o.cancels) ∧
+    w'.stack = .user op (.timerDone o.id (info.kind == .timerRep) o.cancels) :: .pollCall true :: rest := by
   have hid := getObj_id hg
   unfold pollDispatch at h
-  simp only [hop, hg, ht, OpKind.isTimer] at h
-  simp only [show (OpKind.timerOnce == OpKind.post) = false from rfl, Bool.false_eq_true, if_false, if_true] at h
+  simp only [hop, hg, ht] at h
+  have hp : (info.kind == OpKind.post) = false := by
+    cases hk : info.kind <;> simp [hk, OpKind.isTimer] at ht ⊢
+  simp only [hp, Bool.false_eq_true, if_false, if_true] at h
   split at h
   · cases h
-    refine ⟨{ o with evR := false, tstate := .ready, cancelledRep := (o.cancelledRep && OpKind.timerOnce != OpKind.timerRep) }, ?_, ?_⟩
-    · rw [← hid]
-      exact getObj_setObj_self _ o _ (show getObj { w with pending := w.pending - 1 } o.id = some o by rw [hid]; exact hg) rfl
-    · simp
+    refine ⟨⟨{ o with evR := false, tstate := .ready }, ?_, rfl⟩, rfl⟩
+    rw [← hid]
+    exact getObj_setObj_self _ o _ (show getObj { w with pending := w.pending - 1 } o.id = some o by rw [hid]; exact hg) rfl
   · cases h
 
 /-- … and after the callback of a one-shot schedule returns nothing is re-armed. -/
-theorem C04_once_not_rearmed (w : World) (op k : Nat) : applyAfter w op (.timerDone k false) = w := by
+theorem C04_once_not_rearmed (w : World) (op k cb : Nat) : applyAfter w op (.timerDone k false cb) = w := by
   simp only [applyAfter]
   cases getObj w k <;> simp
 
 /-- **Cancelled from inside its own callback, a repeating schedule stops** — also when the callback went on to
 schedule something else after the Cancel (which clears `cancelled`; the defect repaired by 313bd86): a successful
-Cancel since the callback started (`cancelledRep`, the code's `cancels` counter) is enough. -/
-theorem C04_cancel_inside_own_callback_stops (w : World) (op k : Nat) (o : Obj) (hg : getObj w k = some o)
-    (hk : o.kind = .timer) (hc : o.cancelled = true ∨ o.cancelledRep = true) :
-    applyAfter w op (.timerDone k true) = setObj w { o with cancelled := false, cancelledRep := false } := by
+Cancel since the callback started (the counter moved) is enough. -/
+theorem C04_cancel_inside_own_callback_stops (w : World) (op k cb : Nat) (o : Obj) (hg : getObj w k = some o)
+    (hk : o.kind = .timer) (hc : o.cancelled = true ∨ o.cancels ≠ cb) :
+    applyAfter w op (.timerDone k true cb) = setObj w { o with cancelled := false } := by
   rcases hc with hc | hc <;> simp [applyAfter, hg, hk, hc]
 
-/-- `Cancel` records itself for a repeating callback that may be running. -/
+/-- `Cancel` moves the counter: every repeating callback of this timer that is running (however deeply nested) sees it. -/
 theorem C04_cancel_marks_running_repeat (w w' : World) (k : Nat) (rest : List K) (isNil : Bool) (o : Obj)
     (hst : w.stack = .tcancelCall k :: rest) (hg : getObj w k = some o) (hopen : o.tstate ≠ .closed)
     (hs : step w (.ret (.err isNil)) = some w') :
-    ∃ o', getObj w' k = some o' ∧ o'.cancelledRep = true := by
+    ∃ o', getObj w' k = some o' ∧ o'.cancels = o.cancels + 1 := by
   have hid := getObj_id hg
   unfold step at hs
   simp only [hst, hg] at hs
@@ -148,17 +152,23 @@ theorem C04_cancel_marks_running_repeat (w w' : World) (k : Nat) (rest : List K)
   · cases hs
   · simp only [h1, Bool.false_eq_true, if_false] at hs
     cases hs
-    refine ⟨{ o with evR := false, cancelled := true, cancelledRep := true, tstate := .ready }, ?_, rfl⟩
+    refine ⟨{ o with evR := false, cancelled := true, cancels := o.cancels + 1, tstate := .ready }, ?_, rfl⟩
     rw [← hid]
     exact getObj_setObj_self _ o _ (by rw [hid]; exact hg) rfl
 
 /-- A repeating schedule whose timer was closed (or re-scheduled) from inside its callback is not re-armed either. -/
-theorem C04_closed_inside_own_callback_stops (w : World) (op k : Nat) (o : Obj) (hg : getObj w k = some o)
-    (hc : o.cancelled = false) (hcr : o.cancelledRep = false) (hs : o.tstate ≠ .ready) :
-    applyAfter w op (.timerDone k true) = w := by
+theorem C04_closed_inside_own_callback_stops (w : World) (op k cb : Nat) (o : Obj) (hg : getObj w k = some o)
+    (hc : o.cancelled = false) (hcr : o.cancels = cb) (hs : o.tstate ≠ .ready) :
+    applyAfter w op (.timerDone k true cb) = w := by
   have h1 : (o.tstate == TState.ready) = false := by simpa using hs
   simp only [applyAfter, hg, hc, hcr, h1]
   simp
+
+/-- Otherwise the repeating schedule continues: the timer is armed again for the same operation. -/
+theorem C04_repeating_continues (w : World) (op k cb : Nat) (o : Obj) (hg : getObj w k = some o) (hk : o.kind = .timer)
+    (hc : o.cancelled = false) (hcr : o.cancels = cb) (hs : o.tstate = .ready) :
+    applyAfter w op (.timerDone k true cb) = armTimer w o op true := by
+  simp [applyAfter, hg, hk, hc, hcr, hs]
 
 /-! Non-vacuity: schedule, fire, re-schedule while scheduled fails, cancel, close, cancel-after-close, schedule fails. -/
 example : ∃ w, run {} [.obj 1 .timer, .callSched 11 1 false 2, .ret (.err true), .callSched 12 1 false 2, .ret (.err false),
